@@ -859,18 +859,23 @@ def run(tier, seed, reg=None):
     nmax = 6 if tier == "quick" else 9
     col = common.Collector(
         RULE,
-        f"conditional: response ETag absent/strong/weak x (If-None-Match | If-Match | neither) over generated tag lists "
-        f"(empty, '*', 1-3 strong/weak tags incl. near misses, comma inside a tag, 3 separators) and 16 garbage values "
-        f"x Last-Modified absent / +0, +0.6 s, +0.999999 s as aware, naive and UTC-7 datetimes / header text in GMT, "
-        f"+0200, -0530 x If-Modified-Since absent / -1 day, -1 s, equal, +1 s, +1 day in GMT, +0200, -0530, +0000 / 6 "
-        f"unparsable x entry points make_conditional(environ|Request), http.is_resource_modified, "
-        f"sansio.http.is_resource_modified x GET/HEAD/POST; If-Range without Range. "
+        "conditional: response ETag absent/strong/weak x (If-None-Match | If-Match (only with an ETag) | neither) over "
+        "generated tag lists (empty, '*', 1-3 strong/weak tags incl. near misses, comma inside a tag, 3 separators) and 16 "
+        "garbage values x Last-Modified absent / whole second / +0.6 s / +0.999999 s given as aware, naive or UTC-7 "
+        "datetime / header text in GMT, +0200, -0530 (8 forms"
+        + (", thorough: 21" if tier == "thorough" else "") + ") x If-Modified-Since absent / -1 day, -1 s, equal, +1 s, "
+        "+1 day in GMT / -1, 0, +1 s at +0200 / equal at -0530, +0000 / 3 unparsable (15 forms"
+        + (", thorough: 52" if tier == "thorough" else "") + ") x entry points make_conditional(environ) with "
+        "GET/HEAD/POST, http.is_resource_modified, sansio.http.is_resource_modified, make_conditional(Request)"
+        + (" (quick: Request entry only with a datetime Last-Modified and a date sent; HEAD/POST not with unparsable dates)"
+           if tier == "quick" else "") + "; hand-written ETag header incl. the empty tag; If-Range without Range. "
         f"range: every resource length 0..{nmax} x every first-last / first- / -suffix with positions 0..n+1 plus huge "
-        f"values, 12 multi-range, 11 whitespace, 8 unit and 30 malformed headers, Range absent x body as list and "
-        f"generator in every chunking, tuple, FileWrapper blocks 1,2,3,4,8192 seekable / not seekable, direct "
-        f"passthrough or not, raw BytesIO x GET (all) HEAD/POST (3 supplies) x accept_ranges False/'bytes', "
-        f"complete_length None, send_file(BytesIO) and send_file(path); chunkings with empty chunks; If-Range (strong, "
-        f"weak, other, garbage tags; dates -1/0/+1 s) x response ETag/Last-Modified"
+        "values, 12 multi-range, 11 whitespace, 8 unit and 30 malformed headers, Range absent x body as list and "
+        "generator in every chunking into non-empty chunks, tuple, FileWrapper blocks 1,2,3,4,8192 seekable / not "
+        "seekable, direct passthrough or not, raw BytesIO x GET (all) HEAD/POST (3 supplies) x accept_ranges "
+        "False/'bytes', complete_length None, send_file(BytesIO) and send_file(path) x GET/HEAD/POST; 4 chunkings with "
+        "empty chunks x 6 ranges; If-Range (strong, weak, other, garbage tags; dates -1/0/+1 s, other zones) x response "
+        "ETag/Last-Modified x 7 ranges x 3 lengths"
         + ("; thorough adds 40k random resources up to 3000 bytes with random chunkings/blocks and 60k random "
            "conditional combinations" if tier == "thorough" else ""),
         max_failures=80)
